@@ -415,6 +415,9 @@ def classify_failure(an, t, st):
                     if rn[0] == "agg" and len(rn[3]) == 2:
                         bn = norm(buf)
                         return ("read", rn[3][0], rn[3][1]) if _is_filebuf(bn) else ("slice", bn, rn[3][0], rn[3][1])
+                    if rn[0] == "agg" and len(rn[3]) == 1 and "RangeFrom" in str(rn[1]):
+                        bn = norm(buf)
+                        return ("read", rn[3][0], ("len", bn)) if _is_filebuf(bn) else ("slice", bn, rn[3][0], ("len", bn))
             if f in ("convert::TryInto::try_into", "convert::TryFrom::try_from"):
                 return ("conv", norm(args[0]))
             if f == "parse::ParseAt::validate_entsize" or f.endswith(" as parse::ParseAt>::validate_entsize"):
